@@ -209,7 +209,7 @@ def _names(E):
     return np.array([f"s{e % 2}" for e in range(E)], dtype=str)
 
 
-def check_metrics(pred, obs, chains, col, record=True):
+def check_metrics(pred, obs, chains, col, record=True, case=None):
     """One (pred, obs) pair against every chain labelling in `chains`."""
     E, T = len(pred), len(pred[0])
     P = np.array(pred, dtype=float).reshape(E, T)
@@ -219,8 +219,8 @@ def check_metrics(pred, obs, chains, col, record=True):
     want_mse = ref_mse(sq)
     want_var = var_options(ref_per_experiment(sq))
     want_mean = ref_mean_predictions(pred)
-    base_case = {"fam": "metrics", "pred": pred, "obs": obs}
-
+    base_case = case if case is not None else {"fam": "metrics", "pred": pred, "obs": obs}
+    pred_show, obs_show = (pred, obs) if case is None else (f"<{E} x {T} graded predictions>", f"<{E} graded observations>")
     me = ModelEvaluation(predictions=P, observations=O, chain_ids=np.array(chains[0], dtype=int), sample_names=names)
     got_mse = me.mse()
     got_var = me.mse_variance()
@@ -229,12 +229,12 @@ def check_metrics(pred, obs, chains, col, record=True):
     col.transitions += 3
     case0 = dict(base_case, chain=chains[0])
     if not close(got_mse, want_mse):
-        col.violation("C20|mse|value", f"mse()={float(got_mse)!r}, mean over all (experiment, draw) pairs is {want_mse!r}; pred={pred} obs={obs}", case0)
+        col.violation("C20|mse|value", f"mse()={float(got_mse)!r}, mean over all (experiment, draw) pairs is {want_mse!r}; pred={pred_show} obs={obs_show}", case0)
     if not close_any(got_var, want_var):
-        col.violation("C20|mse_variance|value", f"mse_variance()={float(got_var)!r}, variance across experiments of the per-experiment MSE is {want_var[0]!r}; pred={pred} obs={obs}", case0)
+        col.violation("C20|mse_variance|value", f"mse_variance()={float(got_var)!r}, variance across experiments of the per-experiment MSE is {want_var[0]!r}; pred={pred_show} obs={obs_show}", case0)
     gm = np.asarray(got_mean, dtype=float)
     if gm.shape != (E,) or not all(close(gm[e], want_mean[e]) for e in range(E)):
-        col.violation("C20|mean_predictions|value", f"mean_predictions={gm.tolist()}, average over draws is {want_mean}; pred={pred}", case0)
+        col.violation("C20|mean_predictions|value", f"mean_predictions={gm.tolist()}, average over draws is {want_mean}; pred={pred_show}", case0)
     separating = want_var[0] > 0
     for chain in chains:
         col.states += 1
@@ -246,7 +246,7 @@ def check_metrics(pred, obs, chains, col, record=True):
         cm = ref_chain_mses(sq, chain)
         want = var_options(cm)
         if not close_any(got, want):
-            col.violation("C20|inter_chain|value", f"inter_chain_mse_variance()={float(got)!r}, variance of the per-chain MSEs {cm} is {want[0]!r}; pred={pred} obs={obs} chain={chain}", dict(base_case, chain=chain))
+            col.violation("C20|inter_chain|value", f"inter_chain_mse_variance()={float(got)!r}, variance of the per-chain MSEs {cm} is {want[0]!r}; pred={pred_show} obs={obs_show} chain={chain}", dict(base_case, chain=chain))
         if want[0] > 0:
             separating = True
         if record:
@@ -258,9 +258,9 @@ def check_metrics(pred, obs, chains, col, record=True):
     first = (got_mean, got, got_var, got_mse, got)
     for name, a_, b_ in zip(("mean_predictions", "inter_chain_mse_variance", "mse_variance", "mse", "inter_chain_mse_variance"), first, again):
         if not np.array_equal(np.asarray(a_, dtype=float), np.asarray(b_, dtype=float), equal_nan=True):
-            col.violation(f"C20|{name}|changes-when-asked-again", f"{name} answered {np.asarray(a_).tolist()} first and {np.asarray(b_).tolist()} when the same ModelEvaluation was asked again; pred={pred} obs={obs}", dict(base_case, chain=chains[-1]))
+            col.violation(f"C20|{name}|changes-when-asked-again", f"{name} answered {np.asarray(a_).tolist()} first and {np.asarray(b_).tolist()} when the same ModelEvaluation was asked again; pred={pred_show} obs={obs_show}", dict(base_case, chain=chains[-1]))
     if not (np.array_equal(P, np.array(pred, dtype=float).reshape(E, T)) and np.array_equal(O, np.array(obs, dtype=float), equal_nan=True)):
-        col.violation("C20|metrics|inputs-mutated", f"computing the metrics changed the prediction / observation arrays; pred={pred} obs={obs}", case0)
+        col.violation("C20|metrics|inputs-mutated", f"computing the metrics changed the prediction / observation arrays; pred={pred_show} obs={obs_show}", case0)
     if record and separating:
         col.nontriv("metrics", pred, obs)
 
@@ -1077,6 +1077,9 @@ def plan(tier, seed):
     items += cmse_plan(tier)
     items += corr_plan(tier)
     items.append({"fam": "screen-effects"})
+    for E, T in ((4101, 2), (4096, 3), (9000, 1)):
+        items.append({"fam": "metrics-large", "E": E, "T": T})
+    items.append({"fam": "analyze-cli"})
     return items
 
 
@@ -1150,8 +1153,81 @@ def screen_effects_run(item, col):
                     check_screen_effects({"fam": "screen-effects", "screen": si, "plates": list(plates), "read_first": read_first}, col)
 
 
+def metrics_large_run(item, col):
+    """Sparse probe far above the enumerated sizes (a block-wise / bounded-memory rewrite of a metric only shows there):
+    E experiments x T draws of graded values, every metric against the loop definitions."""
+    E, T = item["E"], item["T"]
+    pred = [[0.05 + 0.9 * (((e * 7 + t * 3) % 19) / 19.0) * (1.0 if e < E - 5 else 0.02) for t in range(T)] for e in range(E)]
+    obs = [0.1 + 0.8 * ((e * 5) % 13) / 13.0 for e in range(E)]
+    chains = [[t % 2 for t in range(T)]] if T > 1 else [[0]]
+    check_metrics(pred, obs, chains, col, record=True, case={"fam": "metrics-large", "E": E, "T": T})
+
+
+def analyze_cli_run(item, col):
+    """analyze_model_evaluation run twice into the SAME output directory, for two different evaluations: the summary it
+    leaves behind reports the metrics of the evaluation that was analysed last."""
+    import json
+    from ..cli import run_cli
+    from ..screens import make_screen
+    from batchie.data import ExperimentSpace
+    from batchie.models.sparse_combo import SparseDrugComboMCMCSample
+
+    tmp = env.scratch_dir("c20cli")
+    try:
+        rows = [("s0", "p0", (("a", 1.0), ("b", 1.0)), 0.3, True), ("s1", "p0", (("a", 1.0), ("", 0.0)), 0.6, True),
+                ("s0", "p1", (("b", 1.0), ("", 0.0)), 0.8, True), ("s1", "p1", (("b", 1.0), ("a", 1.0)), 0.4, True)]
+        screen = make_screen(rows, control="")
+        sfn = os.path.join(tmp, "screen.h5")
+        screen.save_h5(sfn)
+        es = ExperimentSpace.from_screen(screen)
+        ns, nt = int(es.n_unique_samples), int(es.n_unique_treatments)
+        holder = ThetaHolder(n_thetas=2)
+        for k in range(2):
+            g = lambda shape, off: (np.arange(int(np.prod(shape)), dtype=float).reshape(shape) * 0.11 + off + 0.2 * k)  # noqa: E731
+            holder.add_theta(SparseDrugComboMCMCSample(W=g((ns, 2), 0.1), W0=g((ns,), -0.2), V2=g((nt, 2), 0.05), V1=g((nt, 2), -0.1),
+                                                      V0=g((nt,), 0.3), alpha=0.2, precision=2.0))
+        tfn = os.path.join(tmp, "thetas.h5")
+        holder.save_h5(tfn)
+        out = os.path.join(tmp, "analysis")
+        evals = {"A": ([[0.2, 0.4], [0.7, 0.5], [0.9, 0.6], [0.3, 0.5]], [0.3, 0.6, 0.8, 0.4]),
+                 "B": ([[0.9, 0.1], [0.2, 0.2], [0.4, 0.8], [0.6, 0.1]], [0.1, 0.9, 0.5, 0.5])}
+        for order in (("A", "B"), ("B", "A", "A")):
+            for name in order:
+                pred, obs = evals[name]
+                case = {"fam": "analyze-cli", "order": list(order), "last": name}
+                me = ModelEvaluation(predictions=np.array(pred), observations=np.array(obs), chain_ids=np.array([0, 1]), sample_names=np.array(["s0", "s1", "s0", "s1"], dtype=str))
+                efn = os.path.join(tmp, f"eval_{name}.h5")
+                me.save_h5(efn)
+                col.evaluations += 1
+                col.states += 1
+                col.transitions += 1
+                try:
+                    run_cli("analyze_model_evaluation", ["--model-evaluation", efn, "--screen", sfn, "--thetas", tfn, "--output-dir", out])
+                except BaseException as exc:  # noqa: BLE001
+                    col.violation("C20|analyze-cli|raised", f"analyze_model_evaluation ({order}, now {name}): {short_exc(exc)}", case)
+                    return
+                with open(os.path.join(out, "summary_statistics.json")) as f:
+                    got = json.load(f)
+                sq = ref_sqerr(pred, obs)
+                want = {"mse": [ref_mse(sq)], "mse_variance": var_options(ref_per_experiment(sq)), "inter_chain_mse_variance": var_options(ref_chain_mses(sq, [0, 1]))}
+                col.outcome("analyze-cli", name, round(float(got.get("mse", -1)), 9))
+                col.nontriv("analyze-cli", order, name)
+                for k_, opts in want.items():
+                    if k_ not in got or not close_any(got[k_], opts):
+                        col.violation(f"C20|analyze-cli|{k_}", f"output directory used for evaluations {list(order)} in turn: after analysing {name} the summary reports {k_}={got.get(k_)!r}, "
+                                                               f"the definition gives {opts[0]!r}", case)
+    finally:
+        shutil.rmtree(tmp, ignore_errors=True)
+
+
 def run_item(item, col, tier):
     fam = item["fam"]
+    if fam == "metrics-large":
+        col.count("items:" + fam)
+        return metrics_large_run(item, col)
+    if fam == "analyze-cli":
+        col.count("items:" + fam)
+        return analyze_cli_run(item, col)
     if fam == "screen-effects":
         col.count("items:" + fam)
         screen_effects_run(item, col)
@@ -1198,5 +1274,9 @@ def replay(case, col):
         check_space(case["shape"], col)
     elif fam == "screen-effects":
         check_screen_effects(case, col)
+    elif fam == "metrics-large":
+        metrics_large_run(case, col)
+    elif fam == "analyze-cli":
+        analyze_cli_run(case, col)
     else:
         raise KeyError(fam)
